@@ -305,6 +305,8 @@ func (c *Ctx) runFunc(name string, pol pw.Policy) (*pw.Engine, []*pw.Path, *type
 			return e, paths, fn, fmt.Errorf("unmodelled construct in %s: %s", name, p.Unsup[0])
 		}
 	}
+	c.curEngine = e
+	paths = c.dropFeaturePaths(name, paths)
 	c.R.Func(name)
 	c.R.Count("paths:"+name, len(paths))
 	return e, paths, fn, nil
